@@ -30,6 +30,9 @@ def correspond(rep, prop, streams, oracle=None, nontrivial=None, project=None, g
         res = planner.run_stream(mode, args)
         n = len(res["reqs"])
         st = {"cases": n, "mode": mode, "args": [str(a) for a in args], "disagree": 0, "oracle_fail": 0}
+        if res.get("n_skipped"):
+            st["skipped_inputs"] = {"count": res["n_skipped"], "examples": res.get("skipped", [])[:3]}
+            log("stream %s: %d generated inputs were unusable (generator defect): %s" % (name, res["n_skipped"], res.get("skipped", [])[:2]))
         rep.coverage["streams"][name] = st
         if res["rc"] not in (0, 3) or n == 0:
             disagreements.append({"stream": name, "request": None,
